@@ -4,7 +4,7 @@ from __future__ import annotations
 
 from sa.peval import peval
 from sa.report import Ctx
-from sa.sym import FALSE, NONE, NOT, Summary, bind_args, conjuncts, show, subst, walk
+from sa.sym import callkw, FALSE, NONE, NOT, Summary, bind_args, conjuncts, show, subst, walk
 
 OPS = "soundevent.geometry.operations"
 DIMS = "soundevent.arrays.dimensions"
@@ -39,7 +39,7 @@ class C20:
             ctx.undec("R20.1", site, f"{len(rc)} rasterio rasterize calls")
             return
         call = rc[0]
-        kw = dict(call.term[3])
+        kw = callkw(call.term)
         args = list(call.term[2])
         shapes = args[0] if args else kw.get("shapes")
         out_shape = kw.get("out_shape", args[1] if len(args) > 1 else None)
@@ -77,7 +77,7 @@ class C20:
         if len(da) != 1:
             ctx.undec("R20.2", site, "returned xr.DataArray(...) not found")
         else:
-            k = dict(da[0][3])
+            k = callkw(da[0])
             data, dims, coords = k.get("data", da[0][2][0] if da[0][2] else None), k.get("dims"), k.get("coords")
             rast = call.term
             tr = ("attr", rast, "T")
